@@ -18,7 +18,14 @@ ASSUMPTIONS = [
 
 
 def shards(tier, seed):
-    return fam.game_shards(tier, seed)
+    out = []
+    for sh in fam.game_shards(tier, seed):
+        out.append(sh)
+        if sh['tier'] != 'thorough' or sh['backend'] == 'autoref':
+            s2 = dict(sh)
+            s2['part'] = 'seq'
+            out.append(s2)
+    return out
 
 
 def scope(tier, seed):
@@ -26,11 +33,39 @@ def scope(tier, seed):
 
 
 def cases(shard):
+    if shard.get('part') == 'seq':
+        return fam.game_sequences(shard, rabin=False)
     return fam.games(shard, rabin=False)
+
+
+def run_seq(case, acc):
+    """Several games solved one after the other in the SAME automaton."""
+    from omega.games import gr1
+    aut = fam.build_game(dict(case, **case['steps'][0]))
+    gm = fam.GameModel(aut, case)
+    for i, st in enumerate(case['steps']):
+        aut.moore, aut.plus_one = bool(st['moore']), bool(st['plus_one'])
+        aut.win['<>[]'] = [fam.pred_bdd(aut, p) for p in st['P']]
+        aut.win['[]<>'] = [fam.pred_bdd(aut, g) for g in st['G']]
+        P = [gm.state_table(u) for u in aut.win['<>[]']]
+        G = [gm.state_table(u) for u in aut.win['[]<>']]
+        z, _, _ = gr1.solve_streett_game(aut)
+        got = gm.state_table(z)
+        ref = gm.winning(P, G, rabin=False, moore=aut.moore,
+                         plus_one=aut.plus_one)
+        acc.ev(dict(seq=case, i=i), 0 < len(ref) < len(gm.states))
+        if got != ref:
+            acc.violation(
+                'region_mismatch_in_reused_automaton', case,
+                detail=dict(step=i, vars=gm.svars, missing=sorted(ref - got),
+                            extra=sorted(got - ref)))
+            return
 
 
 def run_case(case, acc):
     from omega.games import gr1
+    if 'steps' in case:
+        return run_seq(case, acc)
     aut = fam.build_game(case)
     gm = fam.GameModel(aut, case)
     P = [gm.state_table(u) for u in aut.win['<>[]']]
